@@ -70,10 +70,24 @@ def ghw_header_ok(data):
             and data[12] in (1, 2) and data[15] == 0)
 
 
+def expected_class(data):
+    """the class of data that does not begin like an FST block: decided by the GHW header rule or by the VCD rule
+    (first `$`-word a known command, a later `$end`)"""
+    if not data or data[0] in BLOCK_TYPES:
+        return None
+    if data[:2] == b"GH":
+        return "ghw" if ghw_header_ok(data) else "unknown"
+    if data.lstrip(b" \t\r\n")[:1] == b"$":
+        return "vcd" if vcd_is_vcd(data) else "unknown"
+    return "unknown"
+
+
 def oracle_for(data, expect_fmt=None):
     klass = fst_walk_class(data)
     if expect_fmt is None and ghw_header_ok(data):
         expect_fmt = "ghw"
+    if expect_fmt is None and klass is None:
+        expect_fmt = expected_class(data)
     vcd_like = data.lstrip(b" \t\r\n")[:1] == b"$"
 
     def pred(obs):
@@ -94,13 +108,31 @@ def oracle_for(data, expect_fmt=None):
 CMDS = [b"date", b"timescale", b"var", b"scope", b"upscope", b"comment", b"version", b"enddefinitions", b"attrbegin"]
 
 
+def find_end(rest):
+    """read_until_end_token's matcher: a 4-state automaton over `$end`; any mismatch resets it to its start state
+    WITHOUT looking at the mismatching byte again (so `$$end` is not an end token)"""
+    st = 0
+    for b in rest:
+        if st == 0 and b == 36:
+            st = 1
+        elif st == 1 and b == 101:
+            st = 2
+        elif st == 2 and b == 110:
+            st = 3
+        elif st == 3 and b == 100:
+            return True
+        else:
+            st = 0
+    return False
+
+
 def vcd_is_vcd(data):
     s = data.lstrip(b" \t\r\n")
     if s[:1] != b"$":
         return False
     for i, c in enumerate(s[1:]):
         if c in b" \t\r\n":
-            return s[1:1 + i] in CMDS and b"$end" in s[1 + i:]
+            return s[1:1 + i] in CMDS and find_end(s[2 + i:])
     return False
 
 
@@ -147,9 +179,12 @@ def run(res, rng, tier, model_ok, replay=None):
                             continue
                         hang_budget -= 1
                     add(data, "block-header-corners")
-        words = [b"date", b"var", b"foo", b"end", b"enddefinitions", b"", b"$", b"comment", b"DATE", b"scope x", b"dumpvars"]
+        words = [b"date", b"var", b"foo", b"end", b"enddefinitions", b"", b"$", b"comment", b"DATE", b"scope x", b"dumpvars",
+                 # words that extend a command name, and proper prefixes of command names
+                 b"dated", b"variable", b"versions", b"comments", b"scope_name", b"timescales", b"upscopes", b"enddefinitionsx",
+                 b"attrbeginx", b"dat", b"va", b"versio", b"enddefinition", b"attrbegin", b"timescale", b"version", b"upscope"]
         for w in words:
-            for pre in (b"", b" ", b"\n\t "):
+            for pre in (b"", b" ", b"\n\t ", b"\t", b"\r\n", b"\r", b"\t \n"):
                 for post in (b"", b" ", b" $end", b" x $end ", b" $en", b"$end", b" $$end", b" x $end\n$var"):
                     add(pre + b"$" + w + post, "dollar-word")
         # `$`-words that are no VCD command, of every length around the implementation's message limits, holding
@@ -174,7 +209,7 @@ def run(res, rng, tier, model_ok, replay=None):
             sigs, steps, imp = gen.gen_history(rng, max_steps=4)
             idents, kind, idx, nuniq = gen.assign_ids(rng, len(sigs))
             data = gen.header_text(rng, sigs, idents) + gen.body_text(rng, sigs, idents, steps, imp)
-            data = rng.choice([b"", b"\n", b"  \t"]) + data + rng.choice([b"", b"garbage \x00\xff"])
+            data = rng.choice([b"", b"\n", b"  \t", b"\t", b"\r\n", b"\r\n\r\n\t"]) + data + rng.choice([b"", b"garbage \x00\xff"])
             add(data, "generated-vcd", "vcd")
             add(data, "generated-vcd-cursor", cmd="detectc")
             cases[-1]["pred"] = lambda obs: None if obs in ("ok:vcd", "err:vcd") else "read_header on a Cursor: " + obs
